@@ -22,7 +22,7 @@ import shutil
 from pv import core
 from pv import c25_build as B
 
-MAXN = int(os.environ.get("C25_MAXN", "4"))     # grid sizes 1..MAXN x 1..MAXN
+MAXN_QUICK, MAXN_THOROUGH = 3, 4          # grid sizes 1..MAXN x 1..MAXN
 
 
 # ------------------------------------------------------------ known findings
@@ -146,6 +146,8 @@ def _slim_case(rec, hist):
 
 
 def run(tier):
+    global MAXN                                   # pylint: disable=global-statement
+    MAXN = int(os.environ.get("C25_MAXN", MAXN_QUICK if tier == "quick" else MAXN_THOROUGH))
     core.setup_psyclone_env()
     out = core.Outcome("C25", tier, "model_checking", matchers=MATCHERS)
     cov = {"states": 0, "transitions": 0, "traces_validated_against_impl": 0,
